@@ -66,6 +66,9 @@ type Sched struct {
 	switches  int
 	waits     int
 	aborted   bool
+	nstuck    int
+	stuckTask [MaxTasks]int
+	stuckWhat [MaxTasks]string
 	Reason    string // why the run was aborted: "deadlock", "yield limit", "watchdog"
 	trace     []traceEnt
 	points    [256]string
@@ -316,6 +319,14 @@ func (s *Sched) abort(reason string) {
 	}
 	s.aborted = true
 	s.Reason = reason
+	// remember who waited for what before the parked tasks are released
+	s.nstuck = 0
+	for i := 0; i < s.n; i++ {
+		if s.state[i] == stWaiting && s.nstuck < len(s.stuckTask) {
+			s.stuckTask[s.nstuck], s.stuckWhat[s.nstuck] = i, s.waitWhat[i]
+			s.nstuck++
+		}
+	}
 	if s.OnAbort != nil {
 		s.OnAbort()
 	}
@@ -594,11 +605,8 @@ func (s *Sched) collect(res *Result) {
 		}
 	}
 	res.SwitchHash = string(sw)
-	if s.aborted {
-		for i := 0; i < s.n; i++ {
-			if s.state[i] == stWaiting {
-				res.Stuck = append(res.Stuck, fmt.Sprintf("task %d (%s) waits for %s", i, s.names[i], s.waitWhat[i]))
-			}
-		}
+	for k := 0; k < s.nstuck; k++ {
+		i := s.stuckTask[k]
+		res.Stuck = append(res.Stuck, fmt.Sprintf("task %d (%s) waits for %s", i, s.names[i], s.stuckWhat[k]))
 	}
 }
